@@ -15,7 +15,8 @@ residual of its defining equation ``u' = (u + sqrt(var(u) dt / V) xi) + dt f(u',
 Sub-checks: ``euler_maruyama``, ``milstein``, ``semi_implicit`` (final state of an n-step run +
 draw count), ``draw_accounting`` (normal numbers inferred from single steps), ``seed_reproducible``,
 ``zero_noise_deterministic`` (numpy backend), ``zero_noise_numba`` (numba backend, interpreted) and
-``zero_noise_numba_jit`` (small compiled sample), ``tiny_variance`` (finding, see below).
+``zero_noise_numba_jit`` (small compiled sample), ``tiny_variance`` (variances below 1e-14 on tiny
+cells; were treated as zero before fix 2992ecc).
 """
 
 from __future__ import annotations
@@ -42,8 +43,8 @@ RULE = ("one case = (grid, state kind, equation family, variance kind/layout, in
 ASSUMPTIONS = [
     "backend='numpy' for every clause about the exact normal numbers; the numba backend (documented to use "
     "numba's own generator) only for 'vanishing variance = deterministic result'",
-    "variances are either exactly 0 or such that max(variance) >= 1e-12: smaller positive variances are "
-    "treated as zero by SDEBase.is_sde (np.allclose(noise, 0, atol=1e-14)) - isolated in sub-check tiny_variance",
+    "a single ScalarField state gets its variance as a plain number (PDE(..., noise={'u': v} or [v]) on a scalar "
+    "state is rejected with a ValueError of np.broadcast_to)",
     "dt is at most 0.45 (explicit) / 0.3 (semi-implicit) of the inverse operator-norm bound of the linear rate, "
     "so that 20 steps neither overflow nor leave the contraction regime of the fixed-point iteration",
     "the deterministic rate is py-pde's own evolution_rate (property C10 judges it)",
@@ -54,7 +55,6 @@ FIELD_CLASSES = {0: ScalarField, 1: VectorField, 2: Tensor2Field}
 ALPHA = {"ito": 0.0, "itô": 0.0, "stratonovich": 0.5, "anti-ito": 1.0, "anti-itô": 1.0,
          "hänggi-klimontovich": 1.0, "hanggi-klimontovich": 1.0}
 BC = "auto_periodic_neumann"
-TINY = 1e-12  # smallest positive max-variance that is generated (see ASSUMPTIONS)
 
 
 # --------------------------------------------------------------------------------------
@@ -164,7 +164,7 @@ NICE_VAR = [1.0, 0.1, 0.5, 2.0, 0.01, 0.3]
 
 
 @st.composite
-def sde_cases(draw, solvers=("euler",), families=("harness", "harness", "harness", "diffusion", "kpz", "pde"),
+def sde_cases(draw, solvers=("euler",), families=("harness", "harness", "harness", "harness", "pde", "pde", "diffusion", "kpz"),
               nonuniform=True, linear_only=False, theta_max=0.45, s_lo=1e-3, zero_frac=True, max_steps=20):
     classes = ("polar", "sph", "cyl", "polar", "sph", "cyl", "cart", "cart", "unit") if nonuniform else gg.ALL_CLASSES
     spec = draw(gg.grids(classes=classes, max_cells=6, max_total=48, len_lo=1e-2, len_hi=1e2, offset_mag=10))
@@ -187,7 +187,7 @@ def sde_cases(draw, solvers=("euler",), families=("harness", "harness", "harness
         w = draw(st.sampled_from([0.0, 1.0, 3.0]))
         if skind == "scalar" and draw(st.booleans()):
             D = draw(st.sampled_from([1.0, 0.1, 2.5]))
-        kind = draw(st.sampled_from(["const", "const", "u2", "1+u2", "1+u2", "const-forced"]))
+        kind = draw(st.sampled_from(["const", "u2", "1+u2", "1+u2", "u2", "const-forced"]))
         eq.update(a=a, b=b, w=w, D=D, kind=kind)
     elif family in ("diffusion", "kpz"):
         skind, ranks, kind = "scalar", [0], "const"
@@ -258,11 +258,9 @@ def sde_cases(draw, solvers=("euler",), families=("harness", "harness", "harness
             if nice * dt / vmin <= 9.0 and nice * dt / vmin >= s_lo**2:  # increments stay O(1)
                 v = nice
         values.append(float(v))
-    lifted = False
-    if max(values) < TINY:  # below that py-pde treats the equation as deterministic
-        values[int(np.argmax(values))] = TINY
-        lifted = True
-    noise = {"layout": layout, "values": values, "kind": kind, "lifted": lifted}
+    if max(values) == 0:  # at least one field / component is noisy
+        values[0] = float(draw(log_float(s_lo, 1.0)) ** 2 * vmin / dt)
+    noise = {"layout": layout, "values": values, "kind": kind}
     return {
         "grid": spec, "eq": eq, "state": {"kind": skind, "ranks": ranks, "seed": draw(st.integers(0, 2**31 - 1)),
                                            "amp": draw(st.sampled_from([1.0, 0.1, 5.0]))},
@@ -453,8 +451,8 @@ def case_labels(case):
             "solver:" + case["solver"], "steps>=2" if case["n"] >= 2 else "steps=1"]
     if any(v == 0 for v in case["noise"]["values"]) and any(v != 0 for v in case["noise"]["values"]):
         labs.append("some-zero-variance")
-    if case["noise"]["lifted"]:
-        labs.append("lifted:tiny-variance")
+    if 0 < max(case["noise"]["values"]) <= 1e-14:
+        labs.append("max-variance<=1e-14")
     if case["state"]["kind"] == "collection" and len(set(case["state"]["ranks"])) > 1:
         labs.append("mixed-rank-collection")
     return labs
@@ -628,9 +626,11 @@ def check_seed_reproducible(case):
 # vanishing variance -> deterministic result
 # --------------------------------------------------------------------------------------
 @st.composite
-def zero_cases(draw, backends=("numpy",), solvers=("euler", "milstein", "implicit")):
+def zero_cases(draw, backends=("numpy",), solvers=("euler", "milstein", "implicit"), modes=None):
     backend = draw(st.sampled_from(list(backends)))
-    if backend == "numpy":
+    if modes is not None:
+        mode = draw(st.sampled_from(list(modes)))
+    elif backend == "numpy":
         mode = draw(st.sampled_from(["plain_zero", "forced_zero", "partial", "partial", "partial_pde"]))
     else:
         mode = draw(st.sampled_from(["plain_zero", "partial_pde", "partial_pde"]))
@@ -664,7 +664,7 @@ def zero_cases(draw, backends=("numpy",), solvers=("euler", "milstein", "implici
             ranks = [1] if skind == "vector" else [2]
             count, layout = dim ** ranks[0], "per_component"
         case["state"].update(kind=skind, ranks=ranks)
-        v = max(vals[0], TINY)
+        v = vals[0]
         zeros = draw(st.lists(st.booleans(), min_size=count, max_size=count))
         if all(zeros) or not any(zeros):
             zeros[0], zeros[-1] = True, False
@@ -683,7 +683,7 @@ def zero_cases(draw, backends=("numpy",), solvers=("euler", "milstein", "implici
             ranks, rhs = [1, 0, 0], {"v": f"-{k} * v", "a": f"{D} * laplace(a)", "b": "-b"}
         case["eq"].update(rhs=rhs, D=D, k=k, noise_as=draw(st.sampled_from(["list", "dict", "array"])))
         case["state"].update(kind="collection", ranks=ranks)
-        v = max(vals[0], TINY)
+        v = vals[0]
         zeros = draw(st.lists(st.booleans(), min_size=len(ranks), max_size=len(ranks)))
         if all(zeros) or not any(zeros):
             zeros[0], zeros[-1] = True, False
@@ -739,7 +739,7 @@ def check_zero_noise_jit(case):
 
 
 # --------------------------------------------------------------------------------------
-# finding: positive variances below 1e-14 are silently treated as zero
+# positive variances below 1e-14 (were silently treated as zero before fix 2992ecc)
 # --------------------------------------------------------------------------------------
 def tiny_cases():
     return st.fixed_dictionaries({
@@ -801,9 +801,10 @@ SUBCHECKS = [
          rule="non-trivial = stochastic code path with (partly) zero variance, >= 2 steps"),
     _sub("zero_noise_numba", lambda: zero_cases(backends=("numba",), solvers=("euler", "milstein")), check_zero_noise,
          100, 1500, (1, 1), rule="numba backend interpreted; non-trivial = uncoupled fields, some without noise"),
-    _sub("zero_noise_numba_jit", lambda: zero_cases(backends=("numba",), solvers=("euler", "milstein")),
+    _sub("zero_noise_numba_jit", lambda: zero_cases(backends=("numba",), solvers=("euler", "milstein"),
+                                                    modes=("partial_pde",)),
          check_zero_noise_jit, 3, 40, (1, 2), mode="jit", tl={"quick": 100, "thorough": 1200},
          rule="numba backend compiled (tiny sample)"),
     _sub("tiny_variance", tiny_cases, check_tiny_variance, 30, 200, (1, 1),
-         rule="every case is the dedicated finding configuration"),
+         rule="every case has 0 < variance <= 1e-14 on cells of volume <= 1e-9 (increments of order 1e-3)"),
 ]
